@@ -151,21 +151,52 @@ func checkCandidates(w *World, r *Result) {
 func checkMemberFilter(w *World, r *Result) {
 	fi := w.MustFunc("analysis.fetchPkgUnions")
 	info := fi.Pkg.TypesInfo
-	apps := appendStmts(info, fi.Decl.Body, "")
-	if len(apps) != 1 {
-		Undecided("fetchPkgUnions: %d appends (expected 1)", len(apps))
+	// the append of a member: in fetchPkgUnions, or in a helper it calls at one site
+	var app *ast.AssignStmt
+	var appFn *FuncInfo
+	napps := 0
+	for _, cf := range calleeClosure(w, fi, 1) {
+		for _, a := range appendStmts(cf.Pkg.TypesInfo, cf.Decl.Body, "") {
+			if t := cf.Pkg.TypesInfo.TypeOf(a.Lhs[0]); t == nil || t.String() != "[]*go/types.Named" {
+				continue
+			}
+			// the candidate list (allNamedTypes) is also a []*types.Named: members are the ones appended in
+			// fetchPkgUnions itself or under an Implements test
+			underImpl := false
+			for _, c := range pathConds(cf.Decl, a) {
+				if c.expr != nil && containsStr(callsIn(cf.Pkg.TypesInfo, c.expr), "go/types.Implements") {
+					underImpl = true
+				}
+			}
+			if cf == fi || underImpl {
+				app, appFn = a, cf
+				napps++
+			}
+		}
 	}
-	app := apps[0]
+	if napps != 1 {
+		Undecided("fetchPkgUnions: %d appends of a member (expected 1)", napps)
+	}
+	conds, pmap, okc := interConds(w, fi, appFn, app)
+	if !okc {
+		Undecided("fetchPkgUnions: the helper %s holding the member append is not called at exactly one site", appFn.Name)
+	}
+	resolve := func(o types.Object) types.Object {
+		if m, ok := pmap[o]; ok {
+			return m
+		}
+		return o
+	}
 	pos := w.Pos(app.Pos())
 	appended := app.Rhs[0].(*ast.CallExpr).Args[1]
 	memberObj := objOf(info, identOf(appended))
 	var got []string
 	itfVar := types.Object(nil)
-	for _, c := range pathConds(fi.Decl, app) {
+	for _, c := range conds {
 		if c.expr == nil || c.loop {
 			continue
 		}
-		typ, x, v := okVarInfo(info, fi.Decl, c.expr)
+		typ, x, v := okVarInfo(info, c.fn.Decl, c.expr)
 		if typ == "*go/types.Interface" {
 			root := rootIdent(x)
 			who := "candidate"
@@ -185,7 +216,7 @@ func checkMemberFilter(w *World, r *Result) {
 		if call, ok := c.expr.(*ast.CallExpr); ok && fullName(calleeOf(info, call)) == "go/types.Implements" && len(call.Args) == 2 {
 			a0, a1 := identOf(call.Args[0]), identOf(call.Args[1])
 			s := "Implements(?)"
-			if a0 != nil && a1 != nil && objOf(info, a0) == memberObj && itfVar != nil && objOf(info, a1) == itfVar {
+			if a0 != nil && a1 != nil && objOf(info, a0) == memberObj && itfVar != nil && resolve(objOf(info, a1)) == itfVar {
 				s = "Implements(member, candidate's interface)"
 			}
 			if !c.truth {
@@ -378,6 +409,15 @@ func checkImplements(w *World, r *Result) {
 		if typ, _, _ := okVarInfo(info, fi.Decl, c.expr); typ != "" && c.truth {
 			got = append(got, "analysed as "+typ[strings.LastIndex(typ, ".")+1:])
 			continue
+		}
+		// slices.Contains(members, x) is the loop `for _, m := range members { if m == x {...; break} }`: == on the element type
+		if call, ok := ast.Unparen(c.expr).(*ast.CallExpr); ok && c.truth && len(call.Args) == 2 && fullName(calleeOf(info, call)) == "slices.Contains" {
+			lt, rt := info.TypeOf(call.Args[0]), info.TypeOf(call.Args[1])
+			if sl, ok := lt.Underlying().(*types.Slice); ok && rt != nil && sl.Elem().String() == "*go/types.Named" && rt.String() == "*go/types.Named" {
+				identity = true
+				got = append(got, "identity of *types.Named")
+				continue
+			}
 		}
 		s := es(c.expr)
 		if !c.truth {
